@@ -119,11 +119,17 @@ def walk_cases(ctx, res):
         kind = "bulk" if (i % 3 == 1 and version != "v1") else "getnext"
         lenient = kind == "getnext" and i % 4 == 0
         size = ctx.rng.choice([1, 2, 5])
-        clean, _ = W.impl_walk({"db": db}, roots, kind, size=size, lenient=lenient)
+        spec = {"db": db}
+        if kind == "bulk" and i % 2 == 0 and len(roots) > 1:
+            # an agent that answers with less than one repetition: the fetcher's completion requests
+            # are requests like any other — an error-status answer to one of them must surface too
+            spec["policy"] = {"deep": True, "cut": ctx.rng.choice([1, 2, 5]), "rows": ctx.rng.choice([1, 2])}
+            res.count("walk-fault:truncating-agent")
+        clean, _ = W.impl_walk(spec, roots, kind, size=size, lenient=lenient, budget=(len(db) + 8) * 3)
         rq = [e[1] for e in clean["events"] if e[0] == "req"]
         if not rq:
             continue
-        k = 0 if i % 2 == 0 else ctx.rng.randrange(len(rq))
+        k = 0 if (i % 2 == 0 and "policy" not in spec) else ctx.rng.randrange(len(rq))
         foids = rq[k]
         status = ctx.rng.choice([2, 2, 1, 5, 16, 19, 255, -1, 13])
         index = ctx.rng.choice([0, 1, 1, 2, 7, -1])
@@ -133,8 +139,8 @@ def walk_cases(ctx, res):
                 out["a"], out["b"] = status, index
             return out
 
-        walk, agent = W.impl_walk({"db": db}, roots, kind, size=size, lenient=lenient, version=version, level=level, hook=hook, budget=len(db) + 8)
-        case = {"db": db, "roots": roots, "kind": kind, "size": size, "lenient": lenient, "version": version, "level": level, "fault_request": k, "oids": foids, "status": status, "index": index}
+        walk, agent = W.impl_walk(spec, roots, kind, size=size, lenient=lenient, version=version, level=level, hook=hook, budget=(len(db) + 8) * 3)
+        case = {"db": db, "policy": spec.get("policy"), "roots": roots, "kind": kind, "size": size, "lenient": lenient, "version": version, "level": level, "fault_request": k, "oids": foids, "status": status, "index": index}
         res.count(f"walk-fault:{'first' if k == 0 else 'later'}:{'nosuchname' if status == 2 else 'other'}")
         faulted = [r for r in agent.resp_log if r["a"] == status and r["b"] == index]
         if walk["outcome"] == ["error", ["authError"]] and agent.raw_log and auth_len127(agent.raw_log[-1][1]):
@@ -152,7 +158,7 @@ def walk_cases(ctx, res):
                     late = True
             if not ok or late:
                 res.violate("e2e-walk-error", case, want, walk["outcome"], "error response inside a walk did not surface as the documented exception" if not ok else "data yielded from an error response", {"kind": "error-not-surfaced", "walk": True, "first_request": k == 0, "returned_data": late})
-        reqs.append(W.model_request({"db": db}, roots, kind, size=size, lenient=lenient, fuel=len(db) + 10, fault={"oids": foids, "status": status, "index": index}))
+        reqs.append(W.model_request(spec, roots, kind, size=size, lenient=lenient, fuel=(len(db) + 10) * 3, fault={"oids": foids, "status": status, "index": index}))
         impls.append((case, W.canon_impl_walk(walk)))
     if ctx.driver_ok:
         for (case, obs), ans in zip(impls, run_driver(reqs)):
